@@ -15,41 +15,92 @@ def fn_loc(crate, p):
     return "%s:%s" % (f.file, f.line)
 
 
-def loops_over(E, fa, S, getter_suffix):
-    """Loops `for m in X.common_prefix_iterator(suffix)` where X comes from the dictionary getter
-    with the given name. Returns [(next block, cpi call block, cpi term)]."""
+ITER_KEEP = ("into_iter", "iter", "by_ref", "fuse", "peekable", "inspect", "copied", "cloned", "map",
+             "flat_map", "chain", "as_ref", "as_deref", "deref", "borrow", "unwrap_or_default")
+ITER_DROP = ("take", "skip", "filter", "filter_map", "step_by", "take_while", "skip_while", "rev",
+             "nth", "last", "map_while", "zip", "dedup", "find")
+
+
+def _feeds(E, fa, op, depth=0):
+    """The common_prefix_iterator calls whose results flow into an iterator operand, through
+    chains of adaptors (also when the call sits in the closure of a flat_map over an optional
+    lexicon). -> [dict(lex=AP in fa's frame, suffix=repr, block, term, drop=[adaptors that drop items])]"""
     out = []
-    for b, t in calls_named(fa, "common_prefix_iterator"):
-        lex = S.operand(t["args"][0])
-        ok = False
-        if lex[0] == "ap" and lex[1].proj[-1:] == (getter_suffix,):
-            ok = True
-        if not ok:
-            continue
-        # the next() call consuming this iterator
-        for nb, nt in fa.calls():
-            if any(strip_generics(x).endswith("::next") for x in callee_paths(nt)):
-                pl = op_place(nt["args"][0])
-                cur = pl["l"]
-                for _ in range(10):
-                    d = fa.single_def(cur)
-                    if d is None:
+    if depth > 12:
+        return out
+    pl = op_place(op)
+    drop = []
+    for _ in range(24):
+        if pl is None:
+            break
+        d = fa.single_def(pl["l"])
+        if d is None:
+            break
+        if d[2] == "call":
+            t = d[3]
+            nm = (callee_of(t) or {}).get("name") or ""
+            if nm == "common_prefix_iterator":
+                S = Sym(E, fa)
+                out.append(dict(lex=E.ap_operand(fa, t["args"][0]), suffix=repr(E.ap_operand(fa, t["args"][1]) or S.operand(t["args"][1])),
+                                block=d[0], term=t, drop=list(drop), frame=fa))
+                break
+            if nm in ITER_DROP:
+                drop.append(nm)
+            elif nm not in ITER_KEEP:
+                break
+            if nm in ("chain", "zip") and len(t["args"]) > 1:
+                for x in _feeds(E, fa, t["args"][1], depth + 1):
+                    x["drop"] = x["drop"] + drop
+                    out.append(x)
+            if nm in ("flat_map", "map", "filter_map") and len(t["args"]) > 1:
+                cop = t["args"][1]
+                cl = E.closure_of_operand(fa, cop)
+                for _c in range(3):
+                    if cl is not None:
                         break
-                    if d[2] == "call":
-                        if d[0] == b:
-                            out.append((nb, b, t))
-                            break
-                        p0 = op_place(d[3]["args"][0]) if d[3]["args"] else None
-                        if p0 is None:
-                            break
-                        cur = p0["l"]
+                    cpl = op_place(cop)
+                    cd = fa.single_def(cpl["l"]) if cpl is not None and not cpl["p"] else None
+                    if cd and cd[2] == "assign" and cd[3]["k"] in ("cast", "use"):
+                        cop = cd[3]["op"]
+                        cl = E.closure_of_operand(fa, cop)
                     else:
-                        rv = d[3]
-                        p0 = op_place(rv["op"]) if rv["k"] == "use" else rv["place"] \
-                            if rv["k"] == "ref" else None
-                        if p0 is None:
-                            break
-                        cur = p0["l"]
+                        break
+                if cl is not None:
+                    cpath, caps = cl
+                    cfa = E.fa(cpath)
+                    CS = Sym(E, cfa)
+                    base = E.ap_operand(fa, t["args"][0])
+                    for cb, ct in calls_named(cfa, "common_prefix_iterator"):
+                        lex = E.ap_operand(cfa, ct["args"][0])
+                        if lex is not None and lex.root == ("arg", 2):
+                            lexo = base                     # the item of the mapped collection
+                        else:
+                            lexo = Effects.map_closure_ap(lex, caps) if lex is not None else None
+                        sfx = E.ap_operand(cfa, ct["args"][1])
+                        sfo = Effects.map_closure_ap(sfx, caps) if sfx is not None else None
+                        out.append(dict(lex=lexo, suffix=repr(sfo), block=cb, term=ct, drop=list(drop), frame=cfa))
+            if not t["args"]:
+                break
+            pl = op_place(t["args"][0])
+            continue
+        rv = d[3]
+        pl = op_place(rv["op"]) if rv["k"] in ("use", "cast") else rv.get("place") if rv["k"] in ("ref", "rawptr") else None
+    return out
+
+
+def loops_over(E, fa, S, getter_suffix):
+    """Loops whose iterator is fed by X.common_prefix_iterator(suffix), X coming from the
+    dictionary getter with the given name - directly (`for m in X.common_prefix_iterator(..)`)
+    or through adaptor chains (`user.into_iter().flat_map(|l| l.common_prefix_iterator(..))
+    .chain(system.common_prefix_iterator(..))`). Returns [(next block, source dict)]."""
+    out = []
+    for nb, nt in fa.calls():
+        if not any(strip_generics(x).endswith("::next") for x in callee_paths(nt)):
+            continue
+        for src in _feeds(E, fa, nt["args"][0]):
+            lex = src["lex"]
+            if lex is not None and getter_suffix in [str(x) for x in lex.proj]:
+                out.append((nb, src))
     return out
 
 
@@ -93,16 +144,18 @@ def cand(ctx):
     suffixes = set()
     for src, label, optional in (("user_lexicon", "user", True), ("system_lexicon", "system", False)):
         loops = loops_over(E, fa, S, src)
-        okl = len(loops) == 1
+        okl = len(loops) == 1 and not loops[0][1]["drop"]
         ctx.ob("CAND", "add_lattice_edges|%s-lexicon-consulted" % label, okl, fn_loc(crate, P_EDGES),
                "the %s lexicon is searched for prefixes of the remaining text" % label if okl else
-               "no (or more than one) prefix search over the %s lexicon found" % label)
+               "no (or more than one) prefix search over the %s lexicon feeds a candidate loop%s" % (
+                   label, " (matches pass through %s)" % loops[0][1]["drop"] if len(loops) == 1 else ""))
         if not okl:
             continue
-        nb, cb, ct = loops[0]
-        suffixes.add(repr(S.operand(ct["args"][1])))
+        nb, srcd = loops[0]
+        cb, ct = srcd["block"], srcd["term"]
+        suffixes.add(srcd["suffix"])
         through = {nb}
-        if optional:
+        if optional and srcd["frame"] is fa:
             ulap = E.ap_operand(fa, ct["args"][0])
             # None branch of `if let Some(user_lexicon) = self.dict.user_lexicon()`
             for b in sorted(fa.live_blocks()):
@@ -116,7 +169,7 @@ def cand(ctx):
                                 pass
                             through.add(t["otherwise"])
         okp = all(must_pass(fa, r, through) for r in rets)
-        ctx.ob("CAND", "add_lattice_edges|%s-loop-on-every-path" % label, okp, fa.loc(cb),
+        ctx.ob("CAND", "add_lattice_edges|%s-loop-on-every-path" % label, okp, fa.loc(nb),
                "every path runs the %s-lexicon search%s" % (label, " (or the lexicon is absent)"
                                                             if optional else "") if okp else
                "the %s-lexicon search can be bypassed" % label)
